@@ -99,7 +99,7 @@ def run(ctx):
     ok = check_theorems(ctx, ['Generated/ResetConsts.v', 'Reset/BuilderState.v', 'Reset/ResetProofs.v', 'Properties/Properties_C14.v'])
     if not ok:
         ctx.broken_obligation('Properties_C14.vo', getattr(ctx, 'broken', {}))
-    EP_DEFS = ['-DFLATCC_EMITTER_ALLOC=ep_alloc', '-DFLATCC_EMITTER_FREE=ep_free', '-include', os.path.join(lib.ROOT, 'harness', 'ep_alloc.h')]
+    EP_DEFS = ['-DFLATCC_EMITTER_ALLOC=ep_alloc', '-DFLATCC_EMITTER_FREE=ep_free', '-DFLATCC_CALLOC=ep_calloc', '-DFLATCC_FREE=ep_gfree', '-include', os.path.join(lib.ROOT, 'harness', 'ep_alloc.h')]
     exe = build_harness(ctx, extra_defs=EP_DEFS)
     H = lib.Harness(exe, env={'ASAN_OPTIONS': 'detect_leaks=1:abort_on_error=0:allocator_may_return_null=1:max_allocation_size_mb=512'})
 
@@ -336,7 +336,7 @@ def run(ctx):
             snaps = [parse_snap(t) for t in rep.split() if t.startswith('{')]
             if not snaps: continue
             def fp(x): return {**{f: int(x[f]) for f in CAP_FIELDS}, 'e_cap': int(x['e_cap']), 'e_live_pages': max(0, int(x.get('e_live', 0))) // 1000,
-                               'rm_buckets': int(x.get('rm_buckets', 0))}
+                               'rm_buckets': int(x.get('rm_buckets', 0)), 'calloc_live_bytes': max(0, int(x.get('c_live_bytes', 0)))}
             f1 = fp(snaps[0])
             for k in range(1, len(snaps)):
                 fk = fp(snaps[k])
@@ -344,7 +344,7 @@ def run(ctx):
                 if grown:
                     f = grown[0]
                     fp_growing.add(klass)
-                    key = {'c_us': 'user-frame-leak', 'c_ds': 'ds-first-leak'}.get(f, 'footprint-growth:' + f) if rv.endswith(':0') else 'footprint-growth-reducing-reset:' + f
+                    key = 'refmap-table-leak' if f == 'calloc_live_bytes' else ({'c_us': 'user-frame-leak', 'c_ds': 'ds-first-leak'}.get(f, 'footprint-growth:' + f) if rv.endswith(':0') else 'footprint-growth-reducing-reset:' + f)
                     cut = [j for j, t in enumerate(ops_) if t == 'snap'][k]
                     ctx.violation(key, 'footprint after reset grows with the number of earlier builds: `%s` with %s: %s is %d after the first and %d after reset %d '
                                        '(total %d -> %d bytes)' % (klass, rv, f, f1[f], fk[f], k + 1, sum(f1[x] for x in CAP_FIELDS), sum(fk[x] for x in CAP_FIELDS)),
@@ -367,7 +367,9 @@ def run(ctx):
             ('failed_json_union_vector', ['jr:%s:0' % hx(docs[3].encode()[:len(docs[3]) * 3 // 4])]),
             ('failed_json_deep', ['jp:%s:0' % hx(docs[7].encode()[:len(docs[7]) - 12])]), ('completed_json', ['jr:%s:0' % hx(docs[5].encode())]),
             ('big_vector', ['sb:0:0:0', 'st:1', 'cv:%s:5000:1:1:4294967295' % ('77' * 5000), 'to:0:$2', 'et', 'eb:$4']),
-            ('refmap_clone', ['rm:1', 'ri:500', 'sb:0:0:0', 'st:2'])])
+            ('refmap_clone', ['rm:1', 'ri:500', 'sb:0:0:0', 'st:2']),
+            ('refmap_many_then_few', ['rm:1', 'ri:200', 'rs:0:0', 'ri:2']), ('refmap_6_then_1', ['rm:1', 'sb:0:0:0', 'ri:6', 'rs:0:0', 'sb:0:0:0', 'ri:1']),
+            ('refmap_few_then_many', ['rm:1', 'ri:3', 'rs:0:1', 'ri:40', 'rs:1:0', 'ri:1'])])
     add_fp('abandoned_user_frame', ['sb:0:0:0', 'st:4', 'uf:100'], True)
     add_fp('abandoned_nested_table', ['sb:0:0:0', 'st:3', 'ta:0:4:4:01000000', 'ta:1:4:4:02000000', 'st:3'], True)
     add_fp('abandoned_nested_table_reduce', ['sb:0:0:0', 'st:3', 'ta:0:4:4:01000000', 'ta:1:4:4:02000000', 'st:3'], True, 'rs:0:1')
@@ -680,7 +682,10 @@ def run(ctx):
                                   c.klass, live, live * PAGE, d['e_cap'], ' after flatcc_builder_clear' if after_clr else ''),
                               {'harness_line': c.impl_line()[:20000], 'snapshot_index': j, 'live_pages': live, 'e_cap': d['e_cap']})
                 break
-        if c.meta.get('eplive', 0) != 0:
+        if c.meta.get('eplive', 0) % 1000 >= 500:
+            ctx.violation('refmap-table-leak', '%s: a table allocated through FLATCC_CALLOC is still live after flatcc_builder_clear / flatcc_refmap_clear at the end of the history' % c.klass,
+                          {'harness_line': c.impl_line()[:20000]})
+        elif c.meta.get('eplive', 0) != 0:
             ctx.violation('emitter-pages-leak', '%s: %d emitter pages still live after clearing builder and emitter at the end of the history' % (c.klass, c.meta['eplive'] // 1000),
                           {'harness_line': c.impl_line()[:20000]})
     # the pool trims as the model (emitter_pool_bounded: after reset at most one page or twice the decayed average) predicts: live pages
